@@ -149,6 +149,9 @@ func (p *Prog) VerifyFn(fn *ssa.Function, opts VerifyOpts) (res *FnResult) {
 		mode = con.Mode
 	}
 	c := newCtx(mode == "bv")
+	if con != nil && con.Opts["u64"] == "nowrap" {
+		c.NoWrapU64 = true
+	}
 	x := &Exec{p: p, c: c, entry: fn, entryKey: key, occ: map[string]int{}, maxDepth: opts.MaxDepth,
 		sweep: opts.Sweep, noSafety: opts.NoSafety, fnsSeen: map[string]bool{}, contractsUsed: map[string]bool{}, specsUsed: map[string]bool{}, ghost: map[string]Value{}}
 	if x.maxDepth == 0 {
@@ -345,9 +348,6 @@ func (x *Exec) frameObligations(fr *frame, con *FnContract, out *State, post *En
 			continue
 		}
 		conds := []Term{mk(SBool, "<=", r, entry.alloc), mk(SBool, ">", r, intLit(0))}
-		if !con.ModFresh {
-			conds = []Term{}
-		}
 		for _, l := range locs {
 			base, _ := l.pathKey()
 			if strings.HasPrefix(k, base) {
